@@ -55,9 +55,10 @@ class Layout(object):
 
 
 def shape(ranks=1, cpr=1, gpr=0, lfs=0, mem=0, rpn=0, prio=0, colo='none',
-          named_env=False, supplied=None):
+          named_env=False, supplied=None, excl=False):
     return dict(ranks=ranks, cpr=cpr, gpr=gpr, lfs=lfs, mem=mem, rpn=rpn, prio=prio,
-                colo=colo, named_env=named_env, supplied=supplied or [])
+                colo=colo, named_env=named_env, supplied=supplied or [],
+                excl=bool(excl and colo != 'none'))
 
 
 def build_rm_info(lay):
@@ -306,6 +307,8 @@ class SchedRig(object):
             d['ranks_per_node'] = sh['rpn']
         if sh['colo'] != 'none':
             d['tags'] = {'colocate': sh['colo']}
+            if sh.get('excl'):
+                d['tags']['exclusive'] = True
         if sh['named_env']:
             d['named_env'] = 'env_' + uid
         td = rp.TaskDescription(d)
